@@ -197,7 +197,15 @@ pub struct HistCase {
 
 pub fn hist_s() -> BoxedStrategy<HistCase> {
     let text = crate::c15::tcase_s().prop_map(|c| String::from_utf8_lossy(&crate::c15::mutate(&c)).to_string());
-    (proptest::collection::vec(text.clone(), 1..6), text, proptest::collection::vec(crate::pt::u16s(), 13)).prop_map(|(history, probe, regs)| HistCase { history, probe, regs }).boxed()
+    let general = (proptest::collection::vec(text.clone(), 1..6), text, proptest::collection::vec(crate::pt::u16s(), 13)).prop_map(|(history, probe, regs)| HistCase { history, probe, regs });
+    // the same macro library twice -- same macro names, same parameters, same uses with the same arguments --
+    // but with other instruction bodies: anything remembered per macro name or per use across sources shows
+    let macros = (crate::c13::raw_s(), 1usize..5, proptest::collection::vec(crate::pt::u16s(), 13)).prop_map(|(raw, shift, regs)| {
+        let mut other = raw.clone();
+        other.insns.rotate_left(shift);
+        HistCase { history: vec![crate::c13::render(&crate::c13::build(&other)).text], probe: crate::c13::render(&crate::c13::build(&raw)).text, regs }
+    });
+    prop_oneof![3 => general, 1 => macros].boxed()
 }
 
 fn lines_of(t: &str) -> Vec<&str> {
@@ -273,10 +281,21 @@ pub fn eval_hist(c: &HistCase) -> CaseOutcome {
     let replay = json!({"kind":"c19-hist","history":c.history,"probe":c.probe,"regs":c.regs});
     let probe_lines = lines_of(&c.probe);
     let mut had_err = false;
-    // fresh objects
-    let (fi, fd, fp, fpre) = (Interpreter::new(), DataParser::new(), print::PrintParser::new(), Preprocessor::new());
-    let fresh: Vec<String> = probe_lines.iter().flat_map(|l| vec![answer_interp(&fi, l, &c.regs), answer_data(&fd, l, &c.regs), answer_print(&fp, l, &c.regs)]).collect();
-    let fresh_pre = answer_pre(&fpre, &c.probe);
+    // fresh objects, in a brand-new thread: neither an object nor a thread-local or static that the history
+    // below may have filled can have seen anything
+    let (fresh, fresh_pre): (Vec<String>, String) = {
+        let probe = c.probe.clone();
+        let regs = c.regs.clone();
+        std::thread::spawn(move || {
+            crate::emu::install_quiet_panic_hook();
+            let (fi, fd, fp, fpre) = (Interpreter::new(), DataParser::new(), print::PrintParser::new(), Preprocessor::new());
+            let pl = lines_of(&probe);
+            let fresh: Vec<String> = pl.iter().flat_map(|l| vec![answer_interp(&fi, l, &regs), answer_data(&fd, l, &regs), answer_print(&fp, l, &regs)]).collect();
+            (fresh, answer_pre(&fpre, &probe))
+        })
+        .join()
+        .unwrap_or_else(|_| (vec![], "thread panicked".into()))
+    };
     // used objects: first process the history (on other machines and contexts)
     let (ui, ud, up, upre) = (Interpreter::new(), DataParser::new(), print::PrintParser::new(), Preprocessor::new());
     for h in &c.history {
@@ -314,6 +333,9 @@ pub fn eval_hist(c: &HistCase) -> CaseOutcome {
         }
     }
     let mut classes = vec!["c19/parser-history".to_string()];
+    if c.history.len() == 1 && c.probe.contains("macro ") && c.history[0].contains("macro ") && c.probe != c.history[0] {
+        classes.push("c19/parser-history-same-macro-names-other-bodies".into());
+    }
     if had_err {
         classes.push("c19/parser-history-with-error".into());
     }
@@ -332,7 +354,7 @@ pub struct DetCase {
 }
 
 pub fn det_s() -> BoxedStrategy<DetCase> {
-    (crate::c14::raw_s(), proptest::collection::vec((any::<u16>(), 0u8..8), 0..7), any::<bool>(), 0u8..12)
+    (crate::c14::raw_s(), proptest::collection::vec((any::<u16>(), 0u8..11), 0..7), any::<bool>(), 0u8..12)
         .prop_map(|(raw, errors, interpreted, stdin_lines)| DetCase { raw, errors, interpreted, stdin_lines })
         .boxed()
 }
@@ -348,11 +370,16 @@ pub fn det_source(c: &DetCase) -> String {
             0 | 1 | 2 | 3 => format!("{} undef_{}", ["jmp", "jz", "loop", "JNBE"][*kind as usize], k),
             4 => format!("jmp undef_{}", k % 2),
             5 => "mov al, byte nosuch".to_string(),
+            // jumps that come out of one macro: every use records its jump at the same position inside the expansion
+            8 | 9 | 10 => format!("jq9(undef_m{})", k),
             6 => format!("dup_{}: nop\ndup_{}: nop", k, k),
             _ => "mov ax, 70000".to_string(),
         };
         // top level only (a label definition may not be valid inside every context)
         lines.insert(at.min(lines.len()), stmt);
+    }
+    if c.errors.iter().any(|(_, k)| *k >= 8) {
+        lines.insert(first_code, "macro jq9(t) -> jmp t <-".to_string());
     }
     crate::c14::text_of(&lines)
 }
@@ -382,13 +409,17 @@ pub fn eval_det(c: &DetCase) -> CaseOutcome {
             };
         }
     }
-    let n_und = c.errors.iter().filter(|(_, k)| *k <= 4).count();
+    let n_und = c.errors.iter().filter(|(_, k)| *k <= 4 || *k >= 8).count();
+    let n_mac = c.errors.iter().filter(|(_, k)| *k >= 8).count();
     let mut classes = vec!["c19/determinism".to_string()];
     if c.errors.len() >= 2 {
         classes.push("c19/determinism-several-errors".into());
     }
     if n_und >= 2 && first.out_str().contains("used but not defined") {
         classes.push("c19/determinism-several-undefined-labels-reported".into());
+    }
+    if n_mac >= 2 && first.out_str().contains("used but not defined") {
+        classes.push("c19/determinism-several-undefined-labels-from-one-macro".into());
     }
     if c.errors.is_empty() {
         classes.push("c19/determinism-valid-program".into());
@@ -504,6 +535,8 @@ pub fn run(ctx: &Ctx) {
     ctx.require_class("c19/determinism-several-errors", 100);
     ctx.require_class("c19/determinism-several-undefined-labels-reported", 30);
     ctx.require_class("c19/determinism-valid-program", 20);
+    ctx.require_class("c19/determinism-several-undefined-labels-from-one-macro", 15);
+    ctx.require_class("c19/parser-history-same-macro-names-other-bodies", 100);
 }
 
 pub fn replay(v: &Value) -> Result<String, String> {
